@@ -38,7 +38,7 @@ KNOWN_FILE = os.path.join(HERE, 'known_findings.json')
 
 CASE_CPU_SECONDS = 4.0
 MAX_VIOL_PER_SIG_PER_WORKER = 3
-MAX_PRINTED_SIGS = 16
+MAX_PRINTED_SIGS = int(os.environ.get('VERIF_MAX_SIGS', '16'))
 DISTINCT_CAP_PER_WORKER = 400000
 
 
